@@ -184,10 +184,20 @@ def big(spec, acc):
 def _eval(ev, mods, imps, cfg, acc, nontrivial_key=None, list_form=None):
     HUB.case = {"kind": "rule", "mods": mods, "imps": imps, "cfg": cfg, "list_form": list_form}
     before = acc.counters["c01_judged"]
-    run(mk_rule(cfg, list_form, retarget=_decoy(ev, mods, cfg)), ev)
+    run(mk_rule(cfg, list_form, retarget=_decoy(ev, mods, cfg), copied=_copy_plan(mods, cfg)), ev)
     acc.evaluated()
     if imps and acc.counters["c01_judged"] > before:
         acc.nontrivial(nontrivial_key if nontrivial_key is not None else {"m": mods, "i": imps, "c": cfg})
+
+
+def _copy_plan(mods, cfg):
+    """Every seventh rule (by content, other ones than the re-targeted ones) is finished on a deep copy / on an unpickled
+    copy of a kept rule prefix whose original is finished with a decoy object (or the other way round)."""
+    k = (len(cfg["subs"]) * 5 + len(cfg["objs"]) * 3 + len(cfg["subs"][0][1]) + (len(cfg["objs"][0][1]) if cfg["objs"] else 0) + len(cfg["verb"])) % 7
+    if k != 1:
+        return None
+    others = [m for m in mods if "." in m and m not in {n for _, n in cfg["objs"]}]
+    return ("deepcopy" if len(cfg["subs"][0][1]) % 2 else "pickle", others[len(others) // 3]) if others else None
 
 
 def _decoy(ev, mods, cfg):
@@ -427,6 +437,9 @@ def floors(acc, tier):
         why.append(f"only {acc.counters['rule_objects_switched_between_anything_aliases']} rule objects switched between the two 'anything' aliases")
     if acc.counters["big_cases"] < 50:
         why.append(f"only {acc.counters['big_cases']} evaluations on big architectures (80+ modules, batches of 10+)")
+    for how in ("deepcopy", "pickle"):
+        if acc.counters["rules_finished_on_a_copy_of_a_kept_prefix:" + how] < 100:
+            why.append(f"only {acc.counters['rules_finished_on_a_copy_of_a_kept_prefix:' + how]} rules finished on a {how} copy of a kept prefix")
     if acc.counters["rules_retargeted_after_application"] < 100:
         why.append(f"only {acc.counters['rules_retargeted_after_application']} rules built by re-targeting an applied rule prefix")
     if acc.counters["rules_with_batches_in_another_container"] < 100:
